@@ -174,6 +174,10 @@ func buildEventQuery(
 		ors = append(ors, or)
 	}
 
+	if len(ors) == 0 {
+		// no filter selects nothing (an empty Or() would add no condition at all)
+		builder = builder.Where(goqu.L("0"))
+	}
 	builder = builder.Where(goqu.Or(ors...))
 
 	return builder.Prepared(true).ToSQL()
